@@ -100,7 +100,7 @@ func suiteDumpLoad(c M) M {
 	r["dump"] = hx(dump.Bytes())
 
 	var dis0 bytes.Buffer
-	p0, _, _, _, _ := loadOnce(dump.Bytes(), nil, name)
+	p0, _, _, _, _ := loadOnce(dump.Bytes(), nil, "loaded:"+name)
 	_ = p0
 	// disassembly of the original
 	pd, _ := bcl.Parse(src, name, bcl.OptOutput(&dis0), bcl.OptLogger(&log), bcl.OptDisasm(true))
@@ -112,7 +112,7 @@ func suiteDumpLoad(c M) M {
 	for _, pa := range c["partitions"].([]any) {
 		sizes := toInts(pa)
 		m := M{"sizes": sizes}
-		lp, lout, llog, lclass, label := loadOnce(dump.Bytes(), sizes, name)
+		lp, lout, llog, lclass, label := loadOnce(dump.Bytes(), sizes, "loaded:"+name) // the name comes from the file, not from this argument
 		m["class"], m["label"] = lclass, label
 		if lclass == "ok" {
 			m["parts"] = showParts(lp)
